@@ -65,8 +65,14 @@ def flag_uses(repo: Repo, res: CheckResult) -> None:
             continue
         if "/facade/" in m.rel:
             continue  # retort construction API: the flag is configuration there, not a loader decision
+        # names that hold the flag: `strict_coercion` (parameter / keyword convention of the code base) and every local that
+        # is assigned the answer of a StrictCoercionRequest, whatever it is called
+        flag_names = {"strict_coercion"}
+        for a in ast.walk(m.tree):
+            if isinstance(a, ast.Assign) and isinstance(a.targets[0], ast.Name) and "StrictCoercionRequest" in norm(a.value):
+                flag_names.add(a.targets[0].id)
         for node in ast.walk(m.tree):
-            if not (isinstance(node, ast.Name) and node.id == "strict_coercion" and isinstance(node.ctx, ast.Load)):
+            if not (isinstance(node, ast.Name) and node.id in flag_names and isinstance(node.ctx, ast.Load)):
                 continue
             parent = m.parent(node)
             fn = m.enclosing_function(node)
@@ -303,8 +309,11 @@ def scalar_pairs(repo: Repo, R: Resolver, res: CheckResult) -> None:
     # LiteralStringProvider: `str_strict_coercion_loader if strict_coercion else str`
     ls = m.classes.get("LiteralStringProvider")
     if ls is not None:
-        for r in ast.walk(ls.methods.get("provide_loader", ast.Pass())):
-            if isinstance(r, ast.IfExp) and norm(r.test) == "strict_coercion":
+        pl = ls.methods.get("provide_loader", ast.Pass())
+        fl = {"strict_coercion"} | {a.targets[0].id for a in ast.walk(pl) if isinstance(a, ast.Assign)
+                                    and isinstance(a.targets[0], ast.Name) and "StrictCoercionRequest" in norm(a.value)}
+        for r in ast.walk(pl):
+            if isinstance(r, ast.IfExp) and norm(r.test) in fl:
                 pairs.append(("LiteralString", r.body, r.orelse, r.lineno))
     n = 0
     for target, se, le, line in pairs:
@@ -385,11 +394,24 @@ def literal_rule(repo: Repo, res: CheckResult) -> None:
     ifs = [n for n in fn.body if isinstance(n, ast.If) and "strict_coercion" in norm(n.test)]
     ok = False
     for n in ifs:
-        t = norm(n.test)
-        if "isinstance(arg, bool)" in t and "_is_exact_zero_or_one(arg)" in t and t.startswith("strict_coercion and any("):
-            # the branch builds the typed loader
-            if any(isinstance(x, ast.FunctionDef) and "(type(data), data) in" in norm(x) for x in n.body):
-                ok = True
+        t = n.test
+        if not (isinstance(t, ast.BoolOp) and isinstance(t.op, ast.And) and len(t.values) == 2 and norm(t.values[0]) == "strict_coercion"):
+            continue
+        a = t.values[1]
+        if not (isinstance(a, ast.Call) and norm(a.func) == "any" and a.args and isinstance(a.args[0], (ast.GeneratorExp, ast.ListComp))):
+            continue
+        g = a.args[0]
+        v = norm(g.generators[0].target)
+        conds = {norm(x) for x in (g.elt.values if isinstance(g.elt, ast.BoolOp) and isinstance(g.elt.op, ast.Or) else [g.elt])}
+        if conds != {f"isinstance({v}, bool)", f"_is_exact_zero_or_one({v})"} or g.generators[0].ifs:
+            continue
+        # the branch builds the typed loader: a closure testing (type(d), d) membership
+        for x in n.body:
+            if isinstance(x, ast.FunctionDef) and x.args.args:
+                d = x.args.args[0].arg
+                if any(isinstance(c, ast.Compare) and isinstance(c.ops[0], ast.In) and norm(c.left).replace(" ", "") == f"(type({d}),{d})"
+                       for c in ast.walk(x)):
+                    ok = True
     if not ok:
         res.add(Finding("C07", "DOC.literal-typed-membership", m.rel, "LiteralProvider._make_loader",
                         "; ".join(norm(n.test) for n in ifs) or "no strict branch",
